@@ -120,16 +120,17 @@ theorem stable_advance (t : CTok) (hs : stable t = true) : stable (advance t) = 
           exact ⟨hrows, hcols⟩
   | _ => simp [advance, stable]
 
-theorem tokOK_advance (cfg : LexCfg) (t : CTok) (h : tokOK cfg t = true) : tokOK cfg (advance t) = true := by
+theorem tokOK_advance (cfg : LexCfg) (ha1 : cfg.a1 = true) (t : CTok) (h : tokOK cfg t = true) :
+    tokOK cfg (advance t) = true := by
   cases t with
-  | ref sh r => simpa [advance, tokOK, refOK_advRef] using h
+  | ref sh r => simpa [advance, tokOK, ha1, refOK_advRef] using h
   | range sh l r =>
     simp only [advance]
     split
-    · simpa [tokOK, refOK_toggleCol] using h
+    · simpa [tokOK, ha1, refOK_toggleCol] using h
     · split
-      · simpa [tokOK, refOK_toggleRow] using h
-      · simpa [tokOK, refOK_advRef] using h
+      · simpa [tokOK, ha1, refOK_toggleRow] using h
+      · simpa [tokOK, ha1, refOK_advRef] using h
   | _ => simpa [advance] using h
 
 theorem isRefTok_advance (t : CTok) : isRefTok (advance t) = isRefTok t := by
@@ -147,7 +148,7 @@ theorem cycleTokenText_renderTok (cfg : LexCfg) (h : CfgOK cfg) (t : CTok) (href
     cycleTokenText cfg.cc (renderTok cfg t) = renderTok cfg (advance t) := by
   cases t with
   | ref sh r =>
-    simp only [tokOK, Bool.and_eq_true] at hok
+    simp only [tokOK, h.a1, if_true, Bool.and_eq_true] at hok
     obtain ⟨hsh, hr⟩ := hok
     have hc := refOK_col r hr
     rw [renderTok_ref cfg h sh r hr, advance, renderTok_ref cfg h sh (advRef r) hr,
@@ -155,8 +156,8 @@ theorem cycleTokenText_renderTok (cfg : LexCfg) (h : CfgOK cfg) (t : CTok) (href
       cycleEndpoints_single _ (cellText_refChar ..), cycleEndpoint_cellText _ _ _ _ hc]
     rfl
   | range sh l r =>
-    simp only [tokOK, Bool.and_eq_true] at hok
-    obtain ⟨⟨hsh, hl⟩, hr⟩ := hok
+    simp only [tokOK, h.a1, if_true, Bool.and_eq_true] at hok
+    obtain ⟨hsh, hl, hr⟩ := hok
     have hcl := refOK_col l hl
     have hcr := refOK_col r hr
     rw [renderTok_range cfg h sh l r hl hr]
